@@ -441,6 +441,22 @@ LIST_CASES = [      # (plain, written with braces / calls, expected visits)
     ('define q_m 5 println q_m', 'define q_m {5} println q_m', [5]),
     ('define q_m "A" on q_m println q_m', 'define q_m {"A"} on q_m println q_m',
      ['A']),
+    # ... and round a negative number, wherever a bare one can be written
+    ('define q_m -5 println q_m', 'define q_m {-5} println q_m', [-5]),
+    ('define q_m -2.5 println q_m', 'define q_m {-2.5} println q_m', [-2.5]),
+    ('define q_m -5 hue q_m println hue',
+     'define q_m {-5} hue {q_m} println hue', [-5]),
+    ('define q_m 5 println -q_m', 'define q_m 5 println {-q_m}', [-5]),
+    ('assign q_v -5 println q_v', 'assign q_v {-5} println q_v', [-5]),
+    ('println -5', 'println {-5}', [-5]),
+    ('print -5 println 0', 'print {-5} println 0', [-5, 0]),
+    ('define q_f begin return -1 end println [q_f]',
+     'define q_f begin return {-1} end println [q_f]', [-1]),
+    ('define q_f with q_x println q_x q_f -3',
+     'define q_f with q_x println q_x q_f {-3}', [-3]),
+    ('hue -5 println hue', 'hue {-5} println hue', [-5]),
+    ('repeat with q_i from -2 to -1 print q_i println 0',
+     'repeat with q_i from {-2} to {-1} print q_i println 0', [-2, -1, 0]),
 ]
 
 
